@@ -51,7 +51,8 @@ def cases(draw, tier):
             "P": draw(st.sampled_from(["none", "none", "jacobi", "spd", "nystrom"])),
             "tol_exp": draw(st.integers(-12, -1)), "max_iters": draw(st.integers(0, 2 * n)),
             "zero_col": draw(st.booleans()) and nrhs >= 2,
-            "rhs_kind": draw(st.sampled_from(["dense", "dense", "dense", "unit", "zero_rows"]))}
+            "rhs_kind": draw(st.sampled_from(["dense", "dense", "dense", "unit", "zero_rows"])),
+            "pbar": draw(st.integers(1, 8)) == 1}  # the progress-bar option runs the same iteration through another loop wrapper
     # single precision (float32 / complex64) for the sub-checks whose tolerances scale with eps
     case["single"] = sub in ("stopping", "zero_rhs", "via_inv", "scaling") and draw(st.integers(1, 4)) == 1
     if case["single"]:
@@ -155,12 +156,19 @@ class InputMutated(Exception):
     pass
 
 
+PBAR = [False]
+
+
 def run_cg(A, B, X0, P, tol, max_iters, x0_none=False):
     from cola.linalg.inverse.cg import cg
     op = KR.counting_operator(A, annotations=("PSD", ))
     kw = {} if P is None else {"P": P}
     Bc, Xc = B.copy(), X0.copy()
-    x, info = cg(op, Bc, x0=None if x0_none else Xc, tol=tol, max_iters=max_iters, **kw)
+    if PBAR[0]:
+        with oracle.quiet():
+            x, info = cg(op, Bc, x0=None if x0_none else Xc, tol=tol, max_iters=max_iters, pbar=True, **kw)
+    else:
+        x, info = cg(op, Bc, x0=None if x0_none else Xc, tol=tol, max_iters=max_iters, **kw)
     if not np.array_equal(Bc, B) or not np.array_equal(Xc, X0):
         # the iterate is defined relative to the caller's x0 and b: they must still be what the caller passed
         raise InputMutated("cg changed the caller's " + ("right-hand side" if not np.array_equal(Bc, B) else "initial guess"))
@@ -174,6 +182,9 @@ def col_list(B):
 def check(case, out):
     import cola
     sub = case["sub"]
+    PBAR[0] = bool(case.get("pbar"))
+    if PBAR[0]:
+        out.label("pbar")
     A, lam, B, X0 = build_system(case)
     n = case["n"]
     kappa = float(lam.max() / lam.min())
@@ -283,13 +294,19 @@ def check(case, out):
         return
 
     if sub == "zero_rhs":
+        # a zero right-hand side (all columns, or only the last one of a batch) has the solution zero, whatever the guess
         Bz = np.zeros_like(B)
-        res = call(lambda: run_cg(A, Bz, np.zeros_like(X0), P, tol, k, x0_none))
+        partial = B.ndim == 2 and B.shape[1] >= 2 and case["seed"] % 2 == 0
+        if partial:
+            Bz[:, :-1] = B[:, :-1]
+            out.label("zero_rhs:last_column_only")
+        res = call(lambda: run_cg(A, Bz, X0, P, tol, max(k, 1) if partial else k, x0_none))
         if res is None:
             return
         x = np.asarray(res[0])
-        if not np.array_equal(x, np.zeros_like(x)):
-            out.fail(sub, site, "nonzero", f"max |x| = {np.abs(x).max()}")
+        z = x[:, -1] if partial else x
+        if not np.array_equal(z, np.zeros_like(z)):
+            out.fail(sub, site, "nonzero", f"max |x| = {np.abs(z).max()} for a zero right-hand side" + (" column" if partial else ""))
         return
 
     if sub == "scaling":
@@ -346,6 +363,24 @@ def check(case, out):
         alg = cola.linalg.CG(tol=t, max_iters=50 * n + 50) if P is None else cola.linalg.CG(tol=t, max_iters=50 * n + 50, P=P)
         y = call(lambda: cola.linalg.inv(op, alg) @ B)
         z = call(lambda: cola.linalg.solve(op, B, alg))
+        # one inverse object applied to two right-hand sides of different difficulty (generic / an eigenvector): after
+        # each product its info describes that solve - the step count is compared with the products the operator saw
+        def two_solves():
+            w, V = np.linalg.eigh(A.astype(np.complex128) if np.iscomplexobj(A) else A.astype(np.float64))
+            easy = V[:, [0]].astype(A.dtype)
+            hard = (B if B.ndim == 2 else B[:, None])[:, [0]]
+            op2 = KR.counting_operator(A, annotations=("PSD", ))
+            Ainv = cola.linalg.inv(op2, alg)
+            for name, rhs in (("first", hard), ("second", easy)) if case["seed"] % 2 else (("first", easy), ("second", hard)):
+                before = op2.calls
+                Ainv @ rhs
+                steps = op2.calls - before - 1
+                it = getattr(Ainv, "info", {}).get("iterations")
+                if it is None or it - 1 != steps:
+                    out.fail(sub, "cg:inv:info", "stale_or_missing", f"{name} product took {steps} steps but info['iterations'] = {it}")
+                    return
+        if n >= 3 and P is None:
+            call(two_solves)
         for nm, xx in (("inv", y), ("solve", z)):
             if xx is None:
                 continue
